@@ -23,6 +23,7 @@ mod proofs {
 
     #[kani::proof]
     #[kani::unwind(6)]
+    #[kani::solver(kissat)]
     fn k_c09_sort2() {
         let inp: [u8; 7] = kani::any();
         assert!(logic::c09_sort2(&inp).is_ok());
